@@ -46,9 +46,12 @@ def pose_with_bond_along(text, key_a, key_b, direction):
     return structures.map_atoms(posed, f)
 
 
+# the tabulated X-H bond lengths (Angstrom) - an independent copy: hydrogens are measured against THESE, and the program's own table is compared with them
+REF_BOND_LENGTHS = {"C": 1.09, "N": 1.01, "O": 0.96, "F": 0.92, "Cl": 1.27, "Br": 1.41, "I": 1.61, "S": 1.35}
+
+
 def audit(tag, mol, warns, found, rep, complete_res):
-    import propka.group as G
-    bl = G.PROTONATOR.bond_lengths
+    bl = REF_BOND_LENGTHS
     nh = 0
     irregular = set()     # residues whose donors do not have their regular number of bonded heavy atoms (distorted geometry: outside the claim)
     for cname in mol.conformation_names:
@@ -325,6 +328,15 @@ def run(chk: common.Check):
         lig.append(f"HETATM{9130 + k:>5d}  {nm:<3s} HCN L 312    {c[0] + 9.0 + dx * 0.6:8.3f}{c[1] + dx * 0.8:8.3f}{c[2]:8.3f}  1.00  0.00           {el}")
     t_lig = "\n".join(l for l in structures.read("sample-issue-140.pdb").splitlines() if l[:3] != "END") + "\n" + "\n".join(lig) + "\nEND\n"
     study("sample-issue-140 + ligands with Se / P / Si, propyne, HCN", t_lig, [], 1)
+    study("3SGB-subset protein, the program's own hydrogens fed back with --keep-protons", c04.with_hydrogens(prot), ["--keep-protons"], 0)
+    # a free cysteine (S-H is built under --protonate-all only): 1HPX chain A residues 60-75
+    cysw = "\n".join(l for l in structures.read("1HPX.pdb").splitlines() if l[:6] == "ATOM  " and l[21] == "A" and 60 <= int(l[22:26]) <= 75) + "\nEND\n"
+    study("1HPX A 60-75 --protonate-all (free cysteine 67)", cysw, ["--protonate-all"], 0)
+    import propka.group as _G
+    if dict(_G.PROTONATOR.bond_lengths) != REF_BOND_LENGTHS:
+        diffs = {k: (_G.PROTONATOR.bond_lengths.get(k), REF_BOND_LENGTHS.get(k)) for k in set(_G.PROTONATOR.bond_lengths) | set(REF_BOND_LENGTHS)
+                 if _G.PROTONATOR.bond_lengths.get(k) != REF_BOND_LENGTHS.get(k)}
+        found.append(("bond-length-table", f"the program's X-H bond-length table differs from the tabulated values: {diffs} (program, tabulated)", {"differences": {k: list(v) for k, v in diffs.items()}}))
     # hydrogens built next to a metal (HIS 46 NE2 - ZN in 1FTJ): still bonded to their one parent only, also under --protonate-all
     study("1FTJ-Chain-A --protonate-all (zinc-bound histidine)", structures.read("1FTJ-Chain-A.pdb"), ["--protonate-all"], 0)
     t2 = structures.read("1HPX.pdb")
